@@ -279,6 +279,10 @@ def all_harnesses(prog, tier):
     from . import c03_units, c03_table
     L = c03_units.Env(prog)
     hs = c03_units.harnesses(L, tier) + c03_table.harnesses(L, tier)
+    only = os.environ.get("VERIF_C03_ONLY")          # developer aid (mutation runs): comma separated name prefixes
+    if only:
+        hs = [h for h in hs if any(h.name.startswith(p) for p in only.split(","))]
+        log("[C03] VERIF_C03_ONLY=%s: %d harnesses selected (NOT the registered command)" % (only, len(hs)))
     return L, hs
 
 
@@ -344,7 +348,7 @@ def main(tier):
                          "vsym MIR interpreter + models (models.py, cmodels.py atomics, models_gc.py); validated on %d concrete runs against the natively compiled item texts" % nval,
                          "z3 %s" % z3.get_version_string(),
                          "native replay compiles the item texts cut verbatim out of the working tree (engines/native/src/gck_build.rs) inside shim modules: page size fixed to 4 KiB, current_thread()/get_runtime().gc_epoch()/Slot/#[dora_object] array layout are shims"],
-        "units": units,
+        "units": units, "harness_filter": os.environ.get("VERIF_C03_ONLY") or "none (all harnesses)",
         "functions_encoded": sorted(fns), "models_used": sorted(models_used),
         "bounds": L.bounds(tier, c03_table),
         "paths": paths, "queries": queries + vq, "feasibility_queries": queries, "verdict_queries": vq, "solver_time_s": round(stime, 2),
